@@ -229,6 +229,36 @@ theorem persisted_only_complete (files0 : List Nat) (as : List Publish.Act) (s :
     obtain ⟨hwf, hc⟩ := hi.finGood snap hs
     exact ⟨snap, hs, hid, complete_entries hwf hc⟩
 
+/-- The same two facts for BOTH job configurations (without a savepoint URI, or configured with the savepoint of
+checkpoint `k`, re-entering the savepoint path at every crash): every snapshot file ever written or present is an
+initial file or a complete snapshot handed to the publisher, and a newly handed out id exceeds every persisted id. -/
+theorem persisted_complete_any_config (s0 : Publish.Sys)
+    (h0 : (∃ files0, s0 = Publish.init files0) ∨ (∃ k files0, s0 = Publish.initSavepoint k files0))
+    (as : List Publish.Act) (s : Publish.Sys) (obs : List Publish.Obs) (h : Publish.run s0 as = some (s, obs)) :
+    (∀ n, n ∈ s.pub.written ∨ n ∈ s.pub.files →
+      n ∈ s0.pub.initial ∨ ∃ snap ∈ s.pub.finished, snap.id = n ∧ snap.WF ∧ snap.isComplete = true) ∧
+    (∀ c, ∀ n ∈ (step s.store c).2.1.created, ∀ w ∈ s.pub.written, w < n) := by
+  have hc0 : Publish.InvCore s0 := by
+    rcases h0 with ⟨f, rfl⟩ | ⟨k, f, rfl⟩
+    · exact (Publish.inv_init f).core
+    · exact Publish.core_initSavepoint k f
+  have hi := Publish.run_core as hc0 h
+  have hinit : s.pub.initial = s0.pub.initial := Publish.run_initial as h
+  refine ⟨?_, ?_⟩
+  · intro n hn
+    have hw : n ∈ s.pub.written := by
+      rcases hn with hn | hn
+      · exact hn
+      · exact hi.fileWr n hn
+    rcases hi.wrFin n hw with h1 | ⟨snap, hs, hid⟩
+    · left; rw [← hinit]; exact h1
+    · right; exact ⟨snap, hs, hid, hi.finGood snap hs⟩
+  · intro c n hn w hw
+    rcases step_shape s.store c with h' | h' | h' | h' <;> rw [h'.1] at hn <;> simp at hn
+    subst hn
+    have := hi.wrCid w hw
+    omega
+
 /-- Restart from a savepoint (`LoadCheckpoint` with a savepoint URI) on any storage — the job's own, with
 whatever snapshot files and history it has (`files`, `written` as in every reachable state: each persisted id is
 bounded by a file still present), or a fresh one: every id handed out afterwards, over all call sequences, is
